@@ -167,13 +167,22 @@ func apiPool(w *World, pkg *ssa.Package, extra []string) []string {
 			out = append(out, s)
 		}
 	}
+	bases := []string{"1", "1.0", "1.0.0", "1.2.3", "v1.0.1", "2.0", "1.0.0-1"}
+	// the core of the pool comes first (consumers that sub-sample keep a prefix whole): short bases with zero-like,
+	// zero-padded and over-long numeric components appended, prepended and joined by '-'
+	for _, b := range bases[:4] {
+		add(b)
+		for _, d := range []string{"0", "00", "01", "1", "2", "99999999999999999999"} {
+			add(b + "." + d)
+			add(b + "-" + d)
+		}
+	}
 	for _, s := range tests {
 		add(s)
 	}
 	for _, s := range extra {
 		add(s)
 	}
-	bases := []string{"1", "1.0", "1.0.0", "1.2.3", "v1.0.1", "2.0", "1.0.0-1"}
 	var kws []string
 	for _, k := range srcLits {
 		if len(k) >= 1 && len(k) <= 10 && !strings.ContainsAny(k, " %\n\t") {
@@ -344,7 +353,8 @@ func lawHarness(w *World, fn *ssa.Function, cl *Clause, alpha string, maxLen int
 				} else {
 					src = "strs := " + goStringSlice(apiPool(w, pkg, extraPool)) + "\n"
 				}
-				src += `	var pool []*Version
+				strsDecl := src
+				src = `	var pool []*Version
 	e := &Ecosystem{}
 	seen := map[string]bool{}
 	for _, s := range strs {
@@ -353,11 +363,12 @@ func lawHarness(w *World, fn *ssa.Function, cl *Clause, alpha string, maxLen int
 			pool = append(pool, v)
 		}
 	}
-	if %s && len(pool) > 700 { step := len(pool)/700 + 1; var nx []*Version; for i := 0; i < len(pool); i += step { nx = append(nx, pool[i]) }; pool = nx }
+	if %s && len(pool) > 700 { head := 60; step := (len(pool)-head)/640 + 1; nx := append([]*Version{}, pool[:head]...); for i := head; i < len(pool); i += step { nx = append(nx, pool[i]) }; pool = nx }
 	cmp := func(a, b *Version) int { return a.Compare(b) }
 	show := func(a *Version) string { return fmt.Sprintf("%%q", a.String()) }
 `
-				src = fmt.Sprintf(src, fmt.Sprint(alpha == ""))
+				// the pool literal is kept out of the format string: a harvested text with a % would corrupt it
+				src = strsDecl + fmt.Sprintf(src, fmt.Sprint(alpha == ""))
 				return src, "api: versions parsed by the real NewVersion, compared by the real Compare", true
 			}
 		}
@@ -1085,6 +1096,14 @@ func cliFalsifier(w *World, fn *ssa.Function, r vcResult) *Counterexample {
 		}
 		vs = append(vs, "not a version !!")
 		rs = append(rs, "][")
+		// range texts the range parser may reject although (nearly) the same text is a version: unbalanced brackets,
+		// a dangling operator, a branch-style version (each is judged by the library: accepted ones must agree with it)
+		for i, v := range vs {
+			if i < 3 && v != "not a version !!" {
+				rs = append(rs, "["+v, v+"]", "["+v+",", "("+v+",2.0.0", v+" <", ">= ", v+" ||")
+			}
+		}
+		rs = append(rs, "1.0.x-dev", "[1.0.0", "1.0.0]")
 		call := func(args ...string) (string, int) {
 			var buf bytes.Buffer
 			code := run(&buf, args)
